@@ -1,7 +1,9 @@
 package errors
 
 import (
+	stderrors "errors"
 	"fmt"
+	"io/fs"
 	"strings"
 
 	"github.com/Vedant9500/WTF/internal/utils"
@@ -43,9 +45,13 @@ func NewDatabaseErrorWithContext(op, path string, cause error) error {
 	// Determine the specific error type and create appropriate user-friendly error
 	errStr := cause.Error()
 	switch {
-	case strings.Contains(errStr, "no such file or directory"):
+	case op == "parse" || strings.HasPrefix(errStr, "yaml:"):
+		// Decoder messages quote the file's content, so they are never
+		// classified by what else their text happens to contain
+		return NewDatabaseParseError(path, cause)
+	case stderrors.Is(cause, fs.ErrNotExist) || strings.Contains(errStr, "no such file or directory"):
 		return NewDatabaseNotFoundError(path, cause)
-	case strings.Contains(errStr, "permission denied"):
+	case stderrors.Is(cause, fs.ErrPermission) || strings.Contains(errStr, "permission denied"):
 		return NewDatabasePermissionError(path, cause)
 	case strings.Contains(errStr, "yaml:") || strings.Contains(errStr, "unmarshal"):
 		return NewDatabaseParseError(path, cause)
